@@ -505,9 +505,16 @@ func toSubdomainURL(hostname, path string, r *http.Request, inlineDNSLink bool, 
 
 	// Produce subdomain redirect URL in a way that preserves any
 	// percent-encoded paths and query parameters
-	u, err := url.Parse(fmt.Sprintf("http://%s.%s.%s/", rootID, ns, hostname))
+	subdomainHost := fmt.Sprintf("%s.%s.%s", rootID, ns, hostname)
+	u, err := url.Parse("http://" + subdomainHost + "/")
 	if err != nil {
 		return "", err
+	}
+	if u.Host != subdomainHost {
+		// rootID comes from the request path and is not necessarily a DNS
+		// label: characters such as '?', '#' or '@' end or split the
+		// authority, and the redirect would leave the gateway.
+		return "", fmt.Errorf("identifier %q cannot be represented as a subdomain", rootID)
 	}
 	u.RawFragment = r.URL.RawFragment
 	u.RawQuery = r.URL.RawQuery
